@@ -307,6 +307,13 @@ def rule_truncating_casts(ctx):
                     if some and fn.must_pass(bi, via_edges=some):
                         ctx.ok(site(fn, bi, si), "`as %s` of a column index after a successful slab allocation (window ≤ u16::MAX)" % rv["to"])
                         continue
+            # no bound found: a violation when the value is a position / length / count (unbounded by nature, what this
+            # rule is about); for any other quantity (a score held in a field, say) the bound is simply not known
+            hs_ = head_sources(fn, e)
+            positional = rv["from"] in ("usize", "u64", "char") or any(any(k_ in h_ for k_ in ("enumerate", "::len", "::count", "position", "Iterator::next", "arg:")) for h_ in hs_)
+            if not positional:
+                ctx.fail_closed("%s: `%s as %s` of %s: no bound for this value is known to the analysis (neither a position behind the slab guards nor clamped)" % (site(fn, bi, si), rv["from"], rv["to"], show(e)[:80]))
+                continue
             ctx.violation(key, site(fn, bi, si), "truncating cast `%s as %s` of %s with no bound in sight (no `.min(%s::MAX)`, not behind the slab guards)" % (rv["from"], rv["to"], show(e)[:90], rv["to"]))
     ctx.floor("truncating casts to u16/u8", n, 8)
 
